@@ -44,6 +44,7 @@ pub fn scenarios(thorough: bool) -> Vec<Scenario> {
     let mut v = vec![sc("custom02-liquidity", NetID::Custom02, 0, cfg_liquidity(), if thorough { 11 } else { 8 })];
     v.push(sc("custom02-two-pools-three-requests-per-block", NetID::Custom02, 0, cfg_two_pools(), if thorough { 11 } else { 10 }));
     v.push(sc("testnet-ergsym-before-tip902", NetID::Testnet, 0, cfg_ergsym_before_902(), if thorough { 13 } else { 11 }));
+    v.extend(genesis_scenarios(["custom02-genesis-sym-feepool-stake", "custom02-genesis-erg-fees-stakes", "custom02-genesis-huge-mel-feepool"], NetID::Custom02, &cfg_liquidity(), if thorough { 8 } else { 6 }));
     if thorough {
         v.push(sc("testnet-liquidity", NetID::Testnet, 0, cfg_liquidity(), 8));
         v.push(sc("mainnet-liquidity", NetID::Mainnet, 0, cfg_liquidity(), 8));
